@@ -96,7 +96,7 @@ impl Prop for C04 {
         "fault_enumeration"
     }
     fn rule(&self) -> String {
-        "run = seeded encrypted archive (E or C+E) with >= 3 encryption chunks (the first 6 runs - thorough: 60 -: production constants, encryption only, one content block of 6..10 MiB, i.e. 48..80 chunks, faults at six chunk indices spread over the stream); on encrypt-only runs the first file's content is the adversarial block-lookalike class: a well-formed FileStart(\"intruder\")/content/EndOfFile(correct hash)/EndOfArchiveData sequence planted so that it begins exactly at chunk boundaries. Stored-byte faults for EVERY chunk index i (first/last/seeded byte of the payload and of the tag flipped or substituted, truncation inside the payload, at the tag start and inside the tag, chunk duplicated, deleted, swapped with or replaced by a neighbour or an earlier chunk, replaced by the same-index chunk of a second archive with its own key). One run in three damages TWO chunks i < j of one image as well; one scaled run in four repairs through a source that returns short reads - half of those also report ErrorKind::Interrupted now and then, in which case only the safety clauses (names, prefix of the original, nothing beyond the verified chunks) are judged -; one in three has 2-4 recipients. Each altered image is repaired in authenticated (default) and unauthenticated mode. Oracle: authenticated result has only original names, every file is a prefix of the original, and holds no more than what the chunks verified contiguously from the start carry - computed (a) by the independent format model from the verified plaintext prefix (encrypt-only) and (b) metamorphically by repairing the image cut at the start of the first failing chunk; the authenticated result is a per-file prefix of the unauthenticated one. evaluations = altered images judged; distinct_nontrivial = distinct (variant, layers, fault kind, first failing chunk class, payload/tag, lookalike?, outcome) signatures.".into()
+        "run = seeded encrypted archive (E or C+E) with >= 3 encryption chunks (the first 6 runs - thorough: 60 -: production constants, encryption only, one content block of 6..10 MiB, i.e. 48..80 chunks, faults at six chunk indices spread over the stream); on encrypt-only runs the first file's content is the adversarial block-lookalike class: a well-formed FileStart(\"intruder\")/content/EndOfFile(correct hash)/EndOfArchiveData sequence planted so that it begins exactly at chunk boundaries. Stored-byte faults for EVERY chunk index i (first/last/seeded byte of the payload and of the tag flipped or substituted, truncation inside the payload, at the tag start and inside the tag, chunk duplicated, deleted, swapped with or replaced by a neighbour or an earlier chunk, replaced by the same-index chunk of a second archive with its own key). One run in three damages TWO chunks i < j of one image as well; one scaled run in four repairs through a source that returns short reads - half of those also report ErrorKind::Interrupted now and then, in which case only the safety clauses (names, prefix of the original, nothing beyond the verified chunks) are judged -; one in three has 2-4 recipients. Each altered image is repaired in authenticated (default) and unauthenticated mode. Oracle: authenticated result has only original names, every file is a prefix of the original, and holds no more than what the chunks verified contiguously from the start carry - computed (a) by the independent format model from the verified plaintext prefix (encrypt-only) and (b) metamorphically by repairing the image cut at the start of the first failing chunk; the authenticated result is a per-file prefix of the unauthenticated one. evaluations = altered images judged; distinct_nontrivial = distinct (variant, layers, fault kind, first failing chunk class, payload/tag, lookalike?, outcome) signatures. One run in four also repairs the undamaged image and the first two altered ones through a source that fails ONCE (a transient error, not `Interrupted`) at 20 sampled read calls; one run in eight is an error sweep (compression over encryption, short-read source, every read call up to 600 failing once in turn): whatever the repair then writes must be prefixes of the original files (classes source-error|*; an image whose first chunk fails keeps the class of the known finding).".into()
     }
     fn assumptions(&self) -> Vec<String> {
         vec![
@@ -160,6 +160,13 @@ impl Prop for C04 {
         if rng.chance(2, 3) {
             cfg.layers &= !L_COMP;
         }
+        // one run in eight is aimed at ONE transient source error under compression over encryption, read in short
+        // pieces: every read call in turn fails once (the decompressor of the repair path may swallow an error of
+        // the layer below when it still holds input, and ask again)
+        let err_sweep = !big && run % 8 == 5;
+        if err_sweep {
+            cfg.layers |= L_COMP;
+        }
         if cfg.recipients == 0 {
             cfg.recipients = 1;
             cfg.reader = 0;
@@ -211,6 +218,15 @@ impl Prop for C04 {
         case.params.insert("fault_seed".into(), (rng.u64() >> 1) as i64);
         case.params.insert("lookalike".into(), i64::from(lookalike));
         case.params.insert("explicit_auth".into(), i64::from(rng.chance(1, 2)));
+        case.params.insert("src_errors".into(), i64::from(!big && run % 4 == 1));
+        if err_sweep {
+            let mut r = ReadCfg::for_cfg(&case.cfg);
+            r.sched = Sched::Rand { seed: rng.u64() | 1, max: *rng.pick(&[5u64, 16, 24, 40]) };
+            case.rcfg = Some(r);
+            case.params.remove("src_interrupts");
+            case.params.insert("src_errors".into(), 2);
+            case.params.insert("max_chunks".into(), 6);
+        }
         if big {
             case.params.insert("max_chunks".into(), 4);
         }
@@ -347,6 +363,61 @@ impl Prop for C04 {
             ctx.sig(format!("{}|{}|{}|{}|{}|look{}|{}", case.cfg.variant, case.cfg.layer_name(), fault_kind(f), badcls, target, look, auth.1));
             if v.len() > 20 {
                 break;
+            }
+        }
+        // ONE transient source error (not `Interrupted`: a time-out, a would-block) at the k-th read call, the source
+        // working again afterwards, on the undamaged image and on the first altered ones: the repair may stop there,
+        // and what it wrote must still be prefixes of the original files
+        let src_errors = case.param("src_errors", 0);
+        if src_errors >= 1 {
+            let before = v.len();
+            let mut images: Vec<(String, Vec<u8>)> = vec![("undamaged".into(), image.clone())];
+            for f in faults.iter().take(if src_errors == 2 { 0 } else { 2 }) {
+                let a = apply_fault(&image, f, hlen, chunk, Some(&other));
+                if a != image && a.len() >= hlen {
+                    images.push((format!("{f:?}"), a));
+                }
+            }
+            'img: for (what, img) in &images {
+                // an image whose FIRST chunk fails is the known finding whatever the source does (chunk 0 is loaded
+                // without authentication): it keeps its class; the others are classes of their own
+                let d = refmla::decrypt_stream(&key, &nonce, &img[hlen..], chunk);
+                let cls = if d.verified_chunks == d.total_chunks { "source-error|none" } else if d.verified_chunks == 0 { "first-bad-chunk=0" } else { "source-error|first-bad-chunk>0" };
+                let mut r0 = rcfg.clone();
+                r0.error_at_read = None;
+                let clean = s.repair(Rc::new(img.clone()), &r0, true, &ocfg, &Sched::Full);
+                let reads = clean.src.reads.max(1);
+                let sweep = if src_errors == 2 { 600 } else { 20 };
+                let ks: Vec<u64> = if reads <= sweep { (0..reads).collect() } else { (0..sweep).map(|_| frng.below(reads)).collect() };
+                for k in ks {
+                    let mut r = rcfg.clone();
+                    r.error_at_read = Some(k);
+                    ctx.eval();
+                    let out = s.repair(Rc::new(img.clone()), &r, true, &ocfg, &Sched::Full);
+                    if let Some(p) = out.panic {
+                        v.push(Violation::new("auth-repair-panic", cls, format!("{what}, source error at read #{k} of {reads}: panic {p}")));
+                        break 'img;
+                    }
+                    if out.init.is_err() || !matches!(out.convert, Some(Ok(_))) {
+                        ctx.probe("source-error-repair-refused");
+                        continue;
+                    }
+                    let Ok(files) = read_all(s, &Rc::new(out.out_image), &plain) else {
+                        ctx.probe("source-error-repair-output-unreadable (C02's clause)");
+                        continue;
+                    };
+                    for (name, bytes) in &files {
+                        let nm: String = name.chars().take(16).collect();
+                        match model.files.get(name) {
+                            None => v.push(Violation::new("auth-foreign-name", cls, format!("{what}, one source error at read #{k} of {reads}: authenticated repair produced file {nm:?} ({} bytes) which is not in the original archive", bytes.len()))),
+                            Some(o) if !o.starts_with(bytes) => v.push(Violation::new("auth-not-prefix", cls, format!("{what}, one source error at read #{k} of {reads}: file {nm:?}: {} recovered bytes are not a prefix of the original (first difference at {})", bytes.len(), first_diff(bytes, o)))),
+                            _ => {}
+                        }
+                    }
+                    if v.len() > before {
+                        break 'img;
+                    }
+                }
             }
         }
         v
